@@ -169,6 +169,11 @@ SETCONF does not ask Tor to clear the option) — known finding C10-emptied-list
 theorem argsOf_emptied (s : St) (n id : Nat) (h : items s id = []) : argsOf s n (.list id) = [] := by
   simp [argsOf, h]
 
+/-- a comma-separated list option is sent the same way, one pair per item — Tor keeps only the last
+(known finding C10-comma-list-sent-as-repeated-keys; the code does not look at the type here) -/
+example : argsOf { types := [(1, .comma)], heap := [(0, [['8', '0'], ['4', '4', '3']])] } 1 (.list 0) =
+    [(1, ['8', '0']), (1, ['4', '4', '3'])] := by decide
+
 /-! ## the pending set, for every operation sequence -/
 
 structure Inv (s : St) : Prop where
@@ -406,26 +411,9 @@ theorem Inv.ack {s : St} (ok : Bool) (h : Inv s) : Inv (ack s ok).1 := by
         rw [hf] at hv'
         exact h.same x (hsub x hx) e he hge v (aget_filter_some h.nodup hv')
 
-/-- one event of `_conf_changed` touches neither the pending set, nor the counts, nor what is outstanding -/
-def ccStep (s : St) (c : Nat × List Text) : St :=
-  if c.1 ∈ s.isList then
-    let vals := if c.2.isEmpty then (aget s.defaults c.1).getD [] else c.2
-    { s with config := aset s.config c.1 (.list s.next), heap := aset s.heap s.next vals, next := s.next + 1 }
-  else
-    match c.2.getLast? with
-    | some v => { s with config := aset s.config c.1 (.scalar s.next v), next := s.next + 1 }
-    | none =>
-      match aget s.defaults c.1 with
-      | some (d :: _) => { s with config := aset s.config c.1 (.scalar s.next d), next := s.next + 1 }
-      | _ => { s with config := aset s.config c.1 .dflt }
-
-theorem confChanged_eq (s : St) (ch : List (Nat × List Text)) : confChanged s ch = ch.foldl ccStep s := by
-  unfold confChanged
-  congr 1
-
 theorem ccStep_keeps (s : St) (c : Nat × List Text) :
     (ccStep s c).unsaved = s.unsaved ∧ (ccStep s c).inflight = s.inflight ∧ (ccStep s c).gen = s.gen ∧
-    (ccStep s c).isList = s.isList ∧ (ccStep s c).defaults = s.defaults := by
+    (ccStep s c).types = s.types ∧ (ccStep s c).defaults = s.defaults := by
   unfold ccStep
   split
   · exact ⟨rfl, rfl, rfl, rfl, rfl⟩
@@ -435,7 +423,7 @@ theorem ccStep_keeps (s : St) (c : Nat × List Text) :
 
 theorem confChanged_keeps (s : St) (ch : List (Nat × List Text)) :
     (confChanged s ch).unsaved = s.unsaved ∧ (confChanged s ch).inflight = s.inflight ∧ (confChanged s ch).gen = s.gen := by
-  rw [confChanged_eq]
+  unfold confChanged
   induction ch generalizing s with
   | nil => exact ⟨rfl, rfl, rfl⟩
   | cons c ch ih =>
@@ -857,7 +845,7 @@ theorem C10_every_setconf (s : St) (is : List In) (args : List (Nat × Text)) (h
 /-! ### the hypotheses are met, and the theorems say something -/
 
 /-- a bootstrapped configuration: option 0 a list (Log) with two lines, option 1 a scalar -/
-def demo : St := bootOption (bootOption { isList := [0] } 0 [['a'], ['b']]) 1 [['4']]
+def demo : St := bootOption (bootOption { types := [(0, .line), (1, .int)] } 0 [['a'], ['b']]) 1 [['4']]
 
 example : Inv demo ∧ Rel demo {} := ⟨Inv.clean rfl rfl, Rel.clean rfl rfl rfl⟩
 
